@@ -12,6 +12,7 @@ from ..transit_work import split_frames
 from ..monitors import MON, state_of
 
 from wormhole._dilation import connection as conn_mod
+from wormhole._dilation.connection import DilatedConnectionProtocol
 from wormhole._dilation import connector as connector_mod
 from wormhole._dilation import manager as manager_mod
 from wormhole._dilation.connection import (_Framer, _Record, KCM, Ping, Pong, Open, Data, Close, Ack, Handshake)
@@ -54,6 +55,10 @@ def cases(tier, seed, prep=None):
                 for d in (0, 1):
                     out.append({"kind": "mitm", "seed": b + 40000 + k, "frame": idx, "field": field, "dir": d})
                     k += 1
+    # re-framing: a frame made of several Noise messages is cut at a message boundary by rewriting the
+    # length prefix (the pieces are individually authentic); nothing of it may reach the manager
+    for i in range(24 if q else 800):
+        out.append({"kind": "mitm", "seed": b + 60000 + i, "frame": -1, "field": ["split", "split-drop-tail"][i % 2], "dir": i % 2, "big": True})
     return out
 
 
@@ -239,6 +244,8 @@ class Attacker(protocol.Protocol):
 
 
 _surfaced = []   # (what, connection object) for add_candidate / got_record
+_l2_sent = []    # (sending DilatedConnectionProtocol, record) at send_record
+_l2_got = []     # (receiving Manager, its selected connection, record) at Manager.got_record
 
 
 def _install_surface_monitor():
@@ -259,6 +266,22 @@ def _install_surface_monitor():
         p.set_trace(tracer)
         return p
     connector_mod.Connector.build_protocol = build_protocol
+    from wormhole._dilation import manager as manager_mod
+    osr = DilatedConnectionProtocol.send_record
+
+    def send_record(self, record):
+        _l2_sent.append((self, record))
+        return osr(self, record)
+    DilatedConnectionProtocol.send_record = send_record
+    ogr = manager_mod.Manager.got_record
+
+    def got_record(self, r):
+        # the caller is an output method of the DilatedConnectionProtocol that decoded the record
+        import sys
+        caller = sys._getframe(1).f_locals.get("self")
+        _l2_got.append((self, caller, r))
+        return ogr(self, r)
+    manager_mod.Manager.got_record = got_record
 
 
 def run_attack(spec):
@@ -402,10 +425,13 @@ def run_attack(spec):
 def run_mitm(spec):
     _install_surface_monitor()
     del _surfaced[:]
+    del _l2_sent[:]
+    del _l2_got[:]
     world = World(spec["seed"])
     rng = world.work_rng
     dp = DilatedPair(world, ping_interval=5.0)
-    drv = ScriptDriver(dp, rng, names=("p0",), max_opens=2, max_writes=40, sizes=(1, 50, 3000), late_listen=0.0, close_prob=0.0)
+    drv = ScriptDriver(dp, rng, names=("p0",), max_opens=2, max_writes=40,
+                       sizes=(1, 50, 3000) if not spec.get("big") else (1, 50, 70000, 131500, (65511, 65560)), late_listen=0.0, close_prob=0.0)
     drv.budget["open"] = {"A": 1, "B": 1}
     sch = Scheduler(world, drv, strategy="random", chunking="whole")
     sch.run(1500, until=dp.both_connected)
@@ -441,7 +467,17 @@ def run_mitm(spec):
         state["buf"] = bytearray(rest)
         out = bytearray()
         for f in frames:
-            if state["n"] == spec["frame"] and state["fired"] is None:
+            if spec["frame"] == -1 and state["fired"] is None and len(f) - 4 > 65535:
+                # cut the frame after its first Noise message
+                body = f[4:]
+                b = (65535).to_bytes(4, "big") + body[:65535]
+                if spec["field"] == "split":
+                    b += (len(body) - 65535).to_bytes(4, "big") + body[65535:]
+                state["fired"] = (state["n"], spec["field"], len(f), world.step)
+                state["at_frame"] = state["n"]
+                state["surfaced_before"] = len([1 for (w, c) in _surfaced if c is rx_proto]) - base_surfaced
+                out += b
+            elif state["n"] == spec["frame"] and state["fired"] is None:
                 b = bytearray(f)
                 fld = spec["field"]
                 if fld == "truncate":
@@ -476,18 +512,43 @@ def run_mitm(spec):
         # frames before the corrupted one were surfaced 1:1; nothing at or after it may be
         wit = {"spec": spec, "fired": state["fired"], "inflight_at_install": inflight, "surfaced_from_this_connection": surfaced_after[:30],
                "rx_connected": bool(rx_end.connected), "rx_lose_calls": len(rx_end.lose_calls)}
-        if len(surfaced_after) > spec["frame"] + inflight:
-            viol.append({"key": "C12/mitm/record-at-or-after-corrupted-frame-surfaced/" + spec["field"],
-                         "msg": "%d records reached the manager from the connection, frame %d was corrupted (%s)" % (len(surfaced_after), spec["frame"], spec["field"]),
+        at = state.get("at_frame", spec["frame"])
+        if len(surfaced_after) > at + inflight:
+            key = ("C12/mitm/reframed-multi-message-frame-surfaced" if spec["field"].startswith("split")
+                   else "C12/mitm/record-at-or-after-corrupted-frame-surfaced/" + spec["field"])
+            viol.append({"key": key,
+                         "msg": "%d records reached the manager from the connection, frame %d was corrupted (%s)" % (len(surfaced_after), at, spec["field"]),
                          "witness": wit})
-        if rx_end.connected and spec["field"] not in ("length", "truncate"):
+        if rx_end.connected:
             viol.append({"key": "C12/mitm/not-dropped/" + spec["field"], "msg": "connection still up after a corrupted frame was fed", "witness": wit})
+    # order and identity at the L2 -> manager boundary: what a Manager receives from a connection is a prefix
+    # of what the peer handed to the other end of that connection (the re-framing finding is keyed above)
+    from wormhole._dilation.connection import KCM
+    pairs_checked = 0
+    if not spec["field"].startswith("split"):
+        for l in dp.l2_links():
+            ends = [unwrap(e.protocol) for e in l.ends]
+            if not all(isinstance(p, DilatedConnectionProtocol) for p in ends):
+                continue
+            for (tx, rx) in ((ends[0], ends[1]), (ends[1], ends[0])):
+                sent = [r for (c, r) in _l2_sent if c is tx and not isinstance(r, KCM)]
+                got = [r for (m, c, r) in _l2_got if c is rx]
+                if not got:
+                    continue
+                pairs_checked += 1
+                if got != sent[:len(got)]:
+                    i = next((k for k in range(len(got)) if k >= len(sent) or got[k] != sent[k]), 0)
+                    viol.append({"key": "C12/mitm/manager-got-records-differ-from-sent",
+                                 "msg": "record #%d the manager got from a connection is %s, the peer handed %s to it" % (
+                                     i, _short(got[i]), _short(sent[i]) if i < len(sent) else "nothing"),
+                                 "witness": {"spec": spec, "got": [_short(r) for r in got[:12]], "sent": [_short(r) for r in sent[:12]]}})
+                    break
     dp.a.close()
     dp.b.close()
     sch.drain(120.0, 8000, until=lambda: dp.a.closed and dp.b.closed)
     world.finish()
     return {"violations": viol, "nontrivial": ["mitm", spec["frame"], spec["field"], spec["dir"], spec["seed"]] if fed else None,
-            "counters": {"mitm_fed": fed, "mitm_frames_seen": state["n"]},
+            "counters": {"mitm_fed": fed, "mitm_frames_seen": state["n"], "l2_directions_compared": pairs_checked, "reframing_attacks_fed": int(bool(fed and spec["field"].startswith("split")))},
             "sample": {"kind": "mitm", "spec": spec, "fired": state["fired"], "frames": state["n"]}}
 
 
